@@ -238,7 +238,7 @@ func panicClass(pv any) string {
 	if len(s) > 60 {
 		s = s[:60]
 	}
-	return strings.TrimSpace(s)
+	return strings.ReplaceAll(strings.TrimSpace(s), " ", "-")
 }
 
 func trimStack(s string) string {
